@@ -93,10 +93,13 @@ class SystemActionRef:
     defer (register, or - once the registry has run - evaluate at once).
 
     `remover` / `target`: the action `remover`, when it runs, removes the
-    action `target` from the registry.  The target then is no longer
-    registered; whether it still runs in the *same* run is decided only when
-    it is demanded to run before the remover (then it must), otherwise both
-    answers are accepted (`run` reports it as optional)."""
+    action `target` from the registry.  "Run exactly the actions currently
+    registered": when the remover is demanded to run before the target (both
+    registration ranks agree), the target is no longer registered when its
+    turn comes and must NOT run; when the target is demanded to run before
+    the remover it must run; only when their order is not demanded (one of
+    them was registered again while registered) both answers are accepted
+    (`run` reports it as optional).  Afterwards it is gone in every case."""
 
     def __init__(self, remover=None, target=None, track_done=False):
         self.track_done = track_done    # `done` is part of the state
@@ -147,7 +150,9 @@ class SystemActionRef:
         rem = [e for e in ent if e['key'] == ('a', self.remover)]
         tgt = [e for e in ent if e['key'] == ('a', self.target)]
         if rem and tgt:
-            if not _must_precede(tgt[0], rem[0]):
+            if _must_precede(rem[0], tgt[0]):
+                ent = [e for e in ent if e is not tgt[0]]   # removed in time
+            elif not _must_precede(tgt[0], rem[0]):
                 self.optional.append(tgt[0]['key'])
             self.reg.remove(tgt[0]['key'])
             self._chg(self.target)
@@ -319,7 +324,13 @@ def selftest():
     assert [e['key'][-1] for e in g[0]] == ['a1', 'r0'] and not r.optional
     assert [e['key'][-1] for e in r.run()[0]] == ['r0']
     r.add('a1', [1])
-    g = r.run()             # registered after the remover: may stay away
+    g = r.run()             # registered after the remover: must stay away
+    assert [e['key'][-1] for e in g[0]] == ['r0'] and not r.optional
+    assert ('a', 'a1') not in r.reg
+    r.add('a1', [1])
+    r.add('r0', [0])        # remover registered again: order not demanded
+    g = r.run()
+    assert [e['key'][-1] for e in g[0]] == ['r0', 'a1']
     assert r.optional == [('a', 'a1')] and ('a', 'a1') not in r.reg
     v = ServerActionRef('s')
     v.add('s', 'a0', [])
